@@ -36,6 +36,7 @@ structure Manifest where
   mutFrom : Option Id := none
   /-- the apply-time-mutation annotation lists, BEFORE the source above, a source that is in neither set (external) -/
   mutExt : Bool := false
+  mutBad : Bool := false   -- a second substitution (same source, a source path matching nothing) follows the first
   owner : String := ""           -- only for pre-existing objects
 deriving DecidableEq, Repr, Inhabited
 
@@ -471,11 +472,13 @@ def mutateSource (s : St) (m : Manifest) : Except Reason (Option String) :=
     match (match s.cache.lookup src with
            | some o => if o.hasRes && o.status = Wait.KStatus.current then some () else none
            | none => none) with
-    | some _ => (match s.cl.find? src with | some l => .ok (some l.rev) | none => .error "mutate")
+    | some _ => (match s.cl.find? src with
+                 | some l => if m.mutBad then .error "mutate" else .ok (some l.rev)
+                 | none => .error "mutate")
     | none => match s.get src with
       | none => .error "fault"
       | some none => .error "mutate"
-      | some (some l) => .ok (some l.rev)
+      | some (some l) => if m.mutBad then .error "mutate" else .ok (some l.rev)
 
 def applyDecision (s : St) (m : Manifest) : ApplyDecision :=
   match policyApply s m.id with
